@@ -19,41 +19,69 @@ def replay(info, ce):
     dt = _num(inp.get('dt', 1.0))
     m = _num(inp.get('m', 1.0)) if info['entry'].endswith('/m') else 1.0
     labels = [info['label']] if info.get('label') is not None else ['a label with spaces', '  station 12 ', 'x', '', ' ', 'tab\tinside and at the end\t']
+    earlier = None
+    if info.get('history') in ('prior', 'again'):
+        # two-step history on ONE path: another record (other values, time step and label) is saved there and loaded first
+        if info['history'] == 'prior':
+            x0 = np.array([_num(v) for v in inp.get('x__prior', [2.0, -3.0, 1.5])], dtype=float)
+            dt0 = _num(inp.get('dt__prior', 2.5))
+            if abs(dt0 - dt) < 1e-3:
+                dt0 = dt * 2 + 0.01
+            earlier = (x0 if len(x0) != len(x) or np.any(x0 != x) else x0 + 1.0, dt0, 'an earlier record')
+        else:
+            earlier = (x, dt, None)
     for label in labels:
-        r = _one(info, x, dt, m, label)
+        r = _one(info, x, dt, m, label, earlier)
         if r['status'] == 'confirmed':
             return r
     return r
 
 
-def _one(info, x, dt, m, label):
+def _load(loader, entry, path, m):
+    s = None
+    if entry == 'load_values_and_dt':
+        vals, ldt = loader.load_values_and_dt(path)
+    elif entry.startswith('load_signal'):
+        s = loader.load_signal(path, astype='signal' if entry.endswith('/signal') else 'acc_sig')
+        vals, ldt = s.values, s.dt
+    elif entry.startswith('load_sig'):
+        s = loader.load_sig(path, m=m) if entry.endswith('/m') else loader.load_sig(path)
+        vals, ldt = s.values, s.dt
+    else:
+        kw = {}
+        if entry.endswith('/label'):
+            kw['load_label'] = True
+        if entry.endswith('/m'):
+            kw['m'] = m
+        s = loader.load_asig(path, **kw)
+        vals, ldt = s.values, s.dt
+    return vals, ldt, s
+
+
+def _one(info, x, dt, m, label, earlier=None):
     import eqsig
     from eqsig import loader
     d = tempfile.mkdtemp(prefix='pyvc_c16_')
     path = os.path.join(d, 'motion.txt')
     try:
+        if earlier is not None:
+            x0, dt0, label0 = earlier
+            inner = dict(info, history=None)
+            if info.get('saver') == 'save_signal':
+                loader.save_signal(path, eqsig.AccSignal(x0, dt0, label=label if label0 is None else label0))
+            else:
+                loader.save_values_and_dt(path, x0, dt0, label if label0 is None else label0)
+            try:
+                _load(loader, info['entry'], path, m)
+            except Exception:
+                pass
         if info.get('saver') == 'save_signal':
             loader.save_signal(path, eqsig.AccSignal(x, dt, label=label))
         else:
             loader.save_values_and_dt(path, x, dt, label)
         entry = info['entry']
         try:
-            if entry == 'load_values_and_dt':
-                vals, ldt = loader.load_values_and_dt(path)
-            elif entry.startswith('load_signal'):
-                s = loader.load_signal(path, astype='signal' if entry.endswith('/signal') else 'acc_sig')
-                vals, ldt = s.values, s.dt
-            elif entry.startswith('load_sig'):
-                s = loader.load_sig(path, m=m) if entry.endswith('/m') else loader.load_sig(path)
-                vals, ldt = s.values, s.dt
-            else:
-                kw = {}
-                if entry.endswith('/label'):
-                    kw['load_label'] = True
-                if entry.endswith('/m'):
-                    kw['m'] = m
-                s = loader.load_asig(path, **kw)
-                vals, ldt = s.values, s.dt
+            vals, ldt, s = _load(loader, entry, path, m)
         except Exception as e:
             return dict(status='confirmed', observed={'raises': type(e).__name__, 'message': str(e)[:200]},
                         detail='saving values=%s, dt=%r and loading with %s raised %s' % (x.tolist(), dt, entry, type(e).__name__))
@@ -67,8 +95,9 @@ def _one(info, x, dt, m, label):
             bad.append('npts saved %d loaded shape %s' % (len(x), vals.shape))
         elif np.max(np.abs(vals - x * m)) > 0.5e-6 * max(abs(m), 1e-30) + 1e-12:
             bad.append('values differ by %g' % np.max(np.abs(vals - x * m)))
+        hist = '' if earlier is None else ' AFTER a record with dt=%r had been saved to and loaded from the same path' % (earlier[1],)
         return dict(status='confirmed' if bad else 'not-reproduced', observed={'loaded_dt': float(ldt), 'loaded_values': vals.tolist()[:6], 'problems': bad},
-                    detail='save/load round trip with values=%s, dt=%r: %s' % (x.tolist(), dt, bad or 'unchanged to the format precision'))
+                    detail='save/load round trip with values=%s, dt=%r%s: %s' % (x.tolist(), dt, hist, bad or 'unchanged to the format precision'))
     finally:
         try:
             os.unlink(path)
